@@ -34,3 +34,21 @@ Record bsrc := mkbsrc {
   b_push_index : Z -> Z;          (* trail[<this>] = name, from the incremented depth *)
   b_current_index : Z -> Z        (* get_current_from_breadcrumb: trail[<this>] *)
 }.
+
+(* translated pieces of the value transports through mocks (C12); see Values.v *)
+Record valsrc := mkvalsrc {
+  vs_ret_macro : Z -> Z;        (* will_return(value): the cast the macro applies *)
+  vs_ret_store : Z -> Z;        (* create_return_value_constraint(): value stored in the expectation *)
+  vs_ret_load : Z -> Z;         (* mock_(): value returned from the stored integer *)
+  vs_dbl_copy : bool;           (* doubles are only copied: stored as double, boxed by mock_(), box/unbox copy the field *)
+  vs_bv_alloc1 : Z -> Z; vs_bv_copy1 : Z -> Z; vs_bv_size : Z -> Z;   (* create_return_by_value_constraint(): malloc, memcpy, recorded size *)
+  vs_bv_alloc2 : Z -> Z; vs_bv_copy2 : Z -> Z;                         (* stored_result_or_default_for(): malloc, memcpy from the recorded size *)
+  vs_set_macro : Z -> Z;        (* will_set_contents_of_output_parameter(..., size): cast of size *)
+  vs_set_store : Z -> Z;        (* create_set_parameter_value_constraint(): recorded size *)
+  vs_set_len : Z -> Z;          (* set_contents(): memmove length from the recorded size *)
+  vs_set_dst_actual : bool; vs_set_src_expected : bool;   (* memmove(actual pointer, recorded source pointer, ..) *)
+  vs_cap_store : Z -> Z;        (* create_capture_parameter_constraint(): recorded size *)
+  vs_cap_use_offset : Z -> bool -> bool;   (* capture_parameter(): size, bigendian => offset branch *)
+  vs_cap_offset : Z -> Z;       (* offset into the actual's union in that branch *)
+  vs_cap_len_off : Z -> Z; vs_cap_len : Z -> Z   (* memmove lengths of the two branches *)
+}.
